@@ -10,9 +10,11 @@ strings   : string arguments of tdm programs built through the API ("" / "p1" / 
 import itertools
 import sys
 
+import numpy as np
 import z3
 
 from .. import common
+from ..pysym import engine, proxies as P
 from . import _script, _util as U, c11
 
 PID = "C15"
@@ -55,6 +57,9 @@ def _mk():
     S["plain_array_like_parray"] = hdr + parr("p0", "float", 2) + parr("B", "float", 2) + parr("p1", "int", 2) + parr("C", "int", 2) + ["Rgate(p0) | %(m)s", "Rgate(B, k=C) | %(m)s", "Gate(C, p1) | %(m)s"]
     S["parray_first_then_scalar_same_stmt"] = hdr + parr("p0", "float", 2) + ["float y = %(f)s", "Gate(p0, y, k=y, j=p0) | %(m)s"]
     # a bare p (no digits) is an ordinary name
+    # names that Python's int() would read as numbers but that are not "p followed by digits" (digit-group underscores, ...)
+    S["pnames_with_digit_groups"] = hdr + parr("p1_0", "float", 2) + parr("p0_1", "int", 2) + parr("p1_", "float", 2) + parr("p10", "float", 2) + [
+        "Gate(p1_0, p0_1, k=p1_) | %(m)s", "Gate(p10, k=p1_0) | %(m)s"]
     S["bare_p_is_plain"] = hdr + parr("p", "float", 2) + parr("p0", "int", 2) + ["float q = %(f)s", "Gate(p, p0, k=p) | %(m)s", "Rgate(q, j=p0) | %(m)s"]
     # not tdm: the same names are ordinary arrays, passed by value
     nothdr = ["name plain", "version 1.0", ""]
@@ -194,6 +199,8 @@ def run_job(job):
 
 
 def finding_key(r):
+    if r["spec"][0] == "names":
+        return "p-type names: %s" % r["cex"]["what"].split(" is ")[0]
     if r["spec"][0] == "parr":
         return "p-array via API %s: %s" % (r["spec"][1], r["cex"]["what"].split(":")[0])
     if r["spec"][0] == "str":
@@ -212,8 +219,199 @@ print(r["text"]); print("what    :", r["what"]); print("observed:", r["observed"
 '''
 
 
+# ----------------------------------------------------------------------------- names: which names are p-type?
+class NStr(str):
+    """a *symbolic name*: a str subclass that carries a z3 String term, so that the real `is_ptype` / `_is_ptype_reference`
+    run on all names at once.  str(x) gives x itself; indexing, slicing, ==, isdigit, startswith, `in dict` are z3 sequence
+    operations (ASCII names: the NAME rule of the grammar admits nothing else); anything else aborts the path."""
+
+    def __new__(cls, term):
+        o = str.__new__(cls, "<symbolic name>")
+        o.t = term
+        return o
+
+    def __str__(self):
+        return self
+
+    def __repr__(self):
+        raise engine.Abort("repr of a symbolic name")
+
+    def __hash__(self):
+        raise engine.Abort("hash of a symbolic name")
+
+    def _o(self, o):
+        if isinstance(o, NStr):
+            return o.t
+        if isinstance(o, str):
+            return z3.StringVal(o)
+        raise engine.Abort("symbolic name compared with %r" % type(o))
+
+    def __eq__(self, o):
+        return P.SBool(self.t == self._o(o))
+
+    def __ne__(self, o):
+        return P.SBool(self.t != self._o(o))
+
+    def __len__(self):
+        raise engine.Abort("len of a symbolic name")
+
+    def __getitem__(self, k):
+        n = z3.Length(self.t)
+        if isinstance(k, slice):
+            if k.step not in (None, 1) or (k.start or 0) < 0 or (k.stop is not None and k.stop < 0):
+                raise engine.Abort("slice %r of a symbolic name" % (k,))
+            a = k.start or 0
+            ln = (n - a) if k.stop is None else (z3.If(n < k.stop, n, z3.IntVal(k.stop)) - a)
+            return NStr(z3.SubString(self.t, a, z3.If(ln < 0, z3.IntVal(0), ln)))
+        if not isinstance(k, int) or k < 0:
+            raise engine.Abort("index %r of a symbolic name" % (k,))
+        if not engine.cur().branch(n > k):
+            raise IndexError("string index out of range")
+        return NStr(z3.SubString(self.t, k, 1))
+
+    def startswith(self, pre, *a):
+        if a:
+            raise engine.Abort("startswith with offsets")
+        return P.SBool(z3.PrefixOf(self._o(pre), self.t))
+
+    def isdigit(self):
+        return P.SBool(z3.InRe(self.t, z3.Plus(z3.Range("0", "9"))))
+
+    isdecimal = isdigit
+    isnumeric = isdigit
+
+
+class _VarTable(dict):
+    """program._var with exactly one declared array whose name is the symbolic name"""
+
+    def __init__(self, name):
+        dict.__init__(self)
+        self.name = name
+
+    def __contains__(self, k):
+        if isinstance(k, NStr):
+            return bool(P.SBool(k.t == self.name.t))
+        return False
+
+
+def names_case(_=None):
+    """O-names: for ALL names (sentences of the NAME rule, at most 8 characters) the real is_ptype() and the serialiser's
+    _is_ptype_reference() say 'p-type' exactly for p followed by one or more digits.  Symbolic run of the two functions on a z3
+    string; if the code cannot be followed symbolically, every name of <= 4 characters over a small alphabet is run natively."""
+    import itertools
+    from blackbird import listener as LS
+    from blackbird.program import BlackbirdProgram
+    out = {"spec": ("names", 0), "name": "O-names: p-type names are exactly p[0-9]+", "result": "holds", "paths": 0, "stats": None, "why": None, "cex": None, "funcs": [], "reach": 0,
+           "text": "is_ptype(name) / _is_ptype_reference(name) for all names of the NAME rule up to 8 characters"}
+    nm = z3.String("name")
+    letters = z3.Union(z3.Range("a", "z"), z3.Range("A", "Z"))
+    name_re = z3.Concat(letters, z3.Star(z3.Union(letters, z3.Range("0", "9"), z3.Re("_"))))
+    spec = z3.InRe(nm, z3.Concat(z3.Re("p"), z3.Plus(z3.Range("0", "9"))))
+
+    def run_is():
+        return bool(LS.is_ptype(NStr(nm)))
+
+    def run_ref():
+        pr = BlackbirdProgram(name="t", version="1.0")
+        pr._type["name"] = "tdm"
+        x = NStr(nm)
+        pr._var = _VarTable(x)
+        return bool(pr._is_ptype_reference(x))
+
+    symbolic_ok = True
+    for label, fn in (("is_ptype", run_is), ("_is_ptype_reference", run_ref)):
+        E = engine.Engine(max_paths=200)
+        E.base = [z3.InRe(nm, name_re), z3.Length(nm) <= 8]
+        try:
+            with U.coverage(out["funcs"]):
+                paths = E.explore(fn)
+        except engine.PathLimit:
+            symbolic_ok = False
+            continue
+        out["paths"] += len(paths)
+        for pth in paths:
+            if pth.kind == "abort":
+                symbolic_ok = False
+                continue
+            out["reach"] += 1
+            cond = z3.BoolVal(True) if pth.kind == "exc" else (z3.Not(spec) if pth.value else spec)
+            r, mdl = E.query(pth, cond)
+            if r == "unsat":
+                continue
+            if r != "sat":
+                symbolic_ok = False
+                continue
+            w = mdl.eval(nm, model_completion=True).as_string()
+            rr = name_native(w)
+            if rr:
+                out.update(result="violation", cex=dict(rr, values=[w], symbolic_what="%s on the name %r" % (label, w)), stats=E.stats)
+                return out
+            out.setdefault("unconfirmed", []).append({"what": "%s differs from p[0-9]+ on %r (not reproduced natively)" % (label, w), "text": w})
+        out["stats"] = E.stats
+    # native sweep (always: it also covers the route through the parser; it is the only verdict if the symbolic run gave none)
+    n = 0
+    for k in range(1, 5):
+        for tup in itertools.product("p01_xP9", repeat=k):
+            w = "".join(tup)
+            if not (w[0].isalpha()):
+                continue
+            n += 1
+            rr = name_native(w, parse=(k <= 3))
+            if rr:
+                out.update(result="violation", cex=dict(rr, values=[w], symbolic_what="name %r" % w))
+                return out
+    out["validated"] = n
+    if not symbolic_ok:
+        out["why"] = "the functions could not be followed symbolically on every path; verdict from the native sweep over %d names only" % n
+        out["symbolic_incomplete"] = True
+    return out
+
+
+def name_native(w, parse=True):
+    """concrete: is the name treated as p-type exactly if it is p[0-9]+ - by is_ptype, by the serialiser, and (parse) by a tdm
+    script that declares an array of that name and passes it to an operation"""
+    import re
+    import blackbird
+    from blackbird import listener as LS
+    from blackbird.program import BlackbirdProgram
+    want = re.fullmatch(r"p[0-9]+", w) is not None
+    base = {"text": "name %r in a tdm program" % w, "expected": "p-type" if want else "an ordinary name"}
+    got = bool(LS.is_ptype(w))
+    if got != want:
+        return dict(base, what="is_ptype(%r) is %r" % (w, got), observed=repr(got))
+    pr = BlackbirdProgram(name="t", version="1.0")
+    pr._type["name"] = "tdm"
+    pr._var[w] = np.array([[1.0, 2.0]])
+    got = bool(pr._is_ptype_reference(w))
+    if got != want:
+        return dict(base, what="_is_ptype_reference(%r) is %r" % (w, got), observed=repr(got))
+    if parse and w not in ("pi", "P", "x", "p"):
+        text = "name t\nversion 1.0\ntype tdm (temporal_modes=2)\n\nfloat array %s =\n    1.0, 2.0\nGate(%s, k=%s) | 0\n" % (w, w, w)
+        try:
+            p = blackbird.loads(text)
+        except Exception as e:  # noqa
+            return dict(base, what="a tdm script with an array named %r raises %s" % (w, type(e).__name__), observed=str(e)[:200], text=text)
+        a = p.operations[0]["args"][0]
+        byname = isinstance(a, str)
+        if byname != want:
+            return dict(base, what="array %r is delivered %s" % (w, "by name" if byname else "by value"), observed=repr(a), text=text)
+    return None
+
+
+REPLAY_NAME = '''#!/usr/bin/env python
+import sys; sys.path.insert(0, %(root)r)
+from bbverif.checks import c15
+r = c15.name_native(%(name)r)
+if r is None:
+    print("ok"); sys.exit(0)
+print(r["text"]); print("what    :", r["what"]); print("observed:", r["observed"]); print("expected:", r["expected"]); sys.exit(1)
+'''
+
+
 def replay_src(r):
     kind, spec = r["spec"]
+    if kind == "names":
+        return REPLAY_NAME % {"root": common.ROOT, "name": r["cex"]["values"][0]}
     if kind == "parr":
         return REPLAY_STR.replace("c15.string_case(*%(spec)r)", "c15.parray_case(%(spec)r)") % {"root": common.ROOT, "spec": spec}
     if kind == "str":
@@ -239,7 +437,8 @@ def main():
     jobs = [("load", s) for s in SCRIPTS] + [("rt", s) for s in SCRIPTS]
     jobs += [("str", (s, slot, d)) for s in STRINGS for slot in ("pos", "kw") for d in (False, True)]
     jobs += [("parr", n) for n in _parrays()]
-    results = U.run_parallel(run_job, jobs)
+    results = U.run_parallel(run_job, jobs) + [names_case()]
+    rep.bounds["names"] = "all sentences of NAME up to 8 characters (z3 strings) for is_ptype / _is_ptype_reference; natively every name of <= 4 characters over p 0 1 9 _ x P"
     U.collect(rep, results, key_fn=finding_key, replay_fn=replay_src,
               sample_fn=lambda r: {"case": r.get("name"), "script": r.get("text"), "paths": r["paths"]})
     return rep.finish()
